@@ -6,4 +6,5 @@ INVARIANT Cl_Programme
 INVARIANT Cl_IsoConst
 INVARIANT Cl_QcondIff
 INVARIANT Cl_Step0Agree
+INVARIANT Ref_ProgramValue
 CHECK_DEADLOCK FALSE
